@@ -240,7 +240,7 @@ fn adapter_op<V: crate::backends::Full>(o: &mut Outcome, kind: usize, which: usi
 
 /// the backends' private digest / MAC writer adapters, observed through tokens: a token only equals the
 /// reference model's if the adapter fed exactly the PAE bytes (long pieces, three-fragment header piece)
-fn adapters<V: crate::backends::Full>(p: &mut Property, thorough: bool) {
+pub fn adapters<V: crate::backends::Full>(p: &mut Property, thorough: bool) {
     let name = V::NAME;
     // every length up to 300 (a writer that stages or sizes its buffer wrongly fails at *some* length), then sparse
     let mut lens: Vec<usize> = (0..=300).collect();
